@@ -66,6 +66,25 @@ func (s dbSpec) cmds() []Cmd {
 			mk("nginx -t", "test nginx configuration", "nginx", "config"), mk("journalctl -u", "query systemd journal logs", "journal", "logs"),
 			mk("logrotate -d", "compress rotate nginx logs nightly", "logs"), mk("backup.sh", "nightly backup of logs and files", "backup", "nightly", "logs"),
 		}
+	case "wide3100":
+		// 3,100 entries sharing a few words, so that the posting lists of a two-word query hold thousands of
+		// entries (any per-query budget on candidates or accumulators is in play): 'alpha' in 1,800 of them,
+		// 'beta' in 1,400, 'gamma' in 700, overlapping
+		var out []Cmd
+		for i := 0; i < 3100; i++ {
+			d := "entry"
+			if i < 1800 {
+				d += " alpha"
+			}
+			if i >= 1300 && i < 2700 {
+				d += " beta"
+			}
+			if i%4 == 1 || i >= 2900 {
+				d += " gamma"
+			}
+			out = append(out, Cmd{Command: fmt.Sprintf("wide%04d run", i), Description: d, Keywords: []string{fmt.Sprintf("k%d", i%7)}})
+		}
+		return out
 	case "sugties":
 		// words with equal fuzzy quality for "tar": suggestion ties
 		return []Cmd{{Command: "tart x", Description: "tarp tars"}, {Command: "tarn y", Description: "tare tarq"}, {Command: "tark z", Description: "tarw taru"}}
